@@ -1293,13 +1293,14 @@ def rule_forward_all(ctx):
 def rule_ctor_verbatim(ctx):
     """the constructors of SourceMapSource store a requested boolean option as given"""
     f = ctx.facts()
-    r = RuleResult('CTOR-VERBATIM', 'a boolean the caller passes to a SourceMapSource constructor (remove_original_source) is stored as '
-                                    'given — a constant default or the caller\'s value, never a value computed from other inputs — so '
-                                    '"removal of the original source is requested" means what the caller said')
+    r = RuleResult('CTOR-VERBATIM', 'what the caller passes to a SourceMapSource constructor (value, name, maps, original source, the removal '
+                                    'request) is stored as given — a constant default or the caller\'s value through plain conversions, '
+                                    'never filtered or computed from other inputs — so "removal of the original source is requested" and '
+                                    '"the supplied inner map / original source" mean what the caller said')
     r.floor = 1
     adt = anchors.adt_by_name(f, 'SourceMapSource')
-    bools = [fl['name'] for fl in anchors.fields(adt) if fl['ty'] == 'bool']
-    if not bools:
+    bools = [fl['name'] for fl in anchors.fields(adt)]
+    if not any(fl['ty'] == 'bool' for fl in anchors.fields(adt)):
         raise anchors.AnchorMissing('SourceMapSource has no bool field')
     for m in f.body_list:
         if m.promoted is not None or m.d.get('derived') or (m.d.get('impl_trait') or '').endswith('Clone'):
@@ -1313,14 +1314,50 @@ def rule_ctor_verbatim(ctx):
                 e = inline(f, m.expr_of_operand(o), depth=2)
                 bad = [x for x in walk(e) if x[0] in ('bin', 'un') or
                        (x[0] == 'call' and x[1].rsplit('::', 1)[-1] not in ('into', 'from', 'clone', 'copied', 'cloned', 'deref', 'unwrap_or_default',
-                                                                            'unwrap_or', 'default', 'borrow', 'as_ref'))]
+                                                                            'unwrap_or', 'default', 'borrow', 'as_ref', 'to_string', 'to_owned',
+                                                                            'new', 'into_owned', 'as_str', 'into_boxed_str'))]
                 roots = {(rt[1], tuple(fs)) for rt, fs in access_paths(e) if rt[0] == 'arg'}
                 ok = not bad and len(roots) <= 1
                 r.site('%s: field `%s` is stored as given' % (m.path, n), s['s'], 'ok' if ok else 'violation')
                 if not ok:
                     r.violation('%s:%s' % (m.path, n), s['s'], m.path,
-                                'constructor computes `%s` from other inputs instead of storing the caller\'s value: the request is silently '
-                                'changed (e.g. removal of the original source switched off when no original source text is supplied, '
-                                'although the outer map\'s sourcesContent provides it)' % n)
+                                'constructor filters or computes `%s` instead of storing the caller\'s value: what was supplied is silently '
+                                'changed (e.g. removal of the original source switched off, or an inner map dropped, under a condition the '
+                                'caller did not ask for)' % n)
+    r.check_floor()
+    return r
+
+
+def rule_tee_forward(ctx):
+    """the cache-filling tee hands every notification on to the caller"""
+    f = ctx.facts()
+    r = RuleResult('TEE-FORWARD', 'the function that streams a source once for two consumers (the caller\'s callbacks and the map being '
+                                  'collected for the cache) forwards every chunk / source / name notification to the caller on every path: '
+                                  'recording for the cache never replaces or conditions the delivery')
+    r.floor = 3
+    tees = []
+    for b in f.body_list:
+        if b.promoted is not None or b.d['kind'] == 'Closure' or not closure_kind_streams(f, b):
+            continue
+        inner = [m for m in group_of(f, b) if m.d['kind'] == 'Closure' and closure_kind(m)]
+        # a tee: its callback closures feed an encoder as well as the outer callbacks
+        feeds_encoder = any((t.get('callee') or {}).get('name') == 'encode' for m in inner for _, t in m.calls())
+        if len({closure_kind(m) for m in inner}) == 3 and feeds_encoder and (b.d.get('impl_trait') is None):
+            tees.append((b, inner))
+    if not tees:
+        raise anchors.AnchorMissing('no function that both forwards the three callbacks and feeds a mappings encoder')
+    for b, inner in tees:
+        for m in inner:
+            kind = closure_kind(m)
+            stops = {pt[0] for pt, t, k, ops in callback_calls(m) if k == kind}
+            reach = m.reachable(0, blocked=stops)
+            bad = [bb for bb in m.return_blocks() if bb in reach]
+            ok = not bad
+            r.site('%s: every path calls the caller\'s %s callback' % (m.path, kind), m.span(), 'ok' if ok else 'violation')
+            if not ok:
+                r.violation('%s:%s' % (b.path, kind), m.span(), m.path,
+                            'the %s notification is not forwarded to the caller on some path (for instance only when columns are '
+                            'requested): a consumer of the first, cache-filling stream misses an announcement that the chunks it receives '
+                            'refer to' % kind)
     r.check_floor()
     return r
